@@ -103,6 +103,7 @@ def plan_world(rng, idx):
         spec = specs[mi]
         ccfg = gcontent.ContentCfg(max_nodes=r.pick([1, 2, 3, 4, 5]), reifiable=r.pick([0.0, 0.3, 0.6]),
                                    reified_nodes=r.pick([0.0, 0.4]), p_none_target=0.02, avoid_ambiguous=True,
+                                   p_inverted_attr=r.pick([0.0, 0.1, 0.3]),
                                    var_like_constants=r.pick([0.0, 0.2, 0.4]))
         c = gcontent.gen_content(r, spec, ccfg)
         kind = r.weighted([('decoded', 5), ('handbuilt', 2), ('transformed', 2)])
